@@ -8,7 +8,9 @@
      WStep s'  - a writer critical section (rotateParts / rotateSegments / Close) leaving the
                  muxer in state s'
      RGen r    - requester r runs generate* once, on the current state.
-   [S] is the sequential muxer state (M3 supplies it), [gen] the generator, [R] a response. *)
+   [S], [R], [gen] are arbitrary (section variables): the theorems about [run] are generic and are
+   not instantiated with the sequential muxer model or a C03-C05 invariant; the single-playlist
+   invariants of each real response are checked by the harness oracle. *)
 From Coq Require Import List Arith.
 Import ListNotations.
 
